@@ -866,6 +866,37 @@ func (x *runner) step(o op) {
 		if o.A == nil {
 			return
 		}
+		if strings.HasPrefix(o.Hold, "write:") {
+			// operation A (a sweep of the in-flight table) is parked inside a write to a client that does not read - a
+			// retransmission to connection N blocks as it would on a full socket; the operations B run to completion
+			// meanwhile; then the client reads again.  Needs no scheduler gate: the blocked write is the gate.
+			c, _ := strconv.Atoi(strings.TrimPrefix(o.Hold, "write:"))
+			slow := x.client(c)
+			slow.Conn.SetStalled(true)
+			doneA := make(chan struct{})
+			go func() {
+				if o.A.Op == "sweep" {
+					w.Nodes[o.A.N].Queue.Expire(time.Now().Add(time.Duration(o.A.Ms) * time.Millisecond))
+				} else {
+					x.own(*o.A)
+				}
+				close(doneA)
+			}()
+			isParked := w.WaitFor(func() bool { return slow.Conn.WriteBlocked() }, 2*time.Second)
+			x.r.Emit(rec.Ev{"op": "race.parked", "hold": o.Hold, "parked": isParked})
+			for _, b := range o.B {
+				x.own(b)
+			}
+			slow.Conn.SetStalled(false)
+			x.r.Emit(rec.Ev{"op": "race.released", "hold": o.Hold})
+			select {
+			case <-doneA:
+			case <-time.After(10 * time.Second):
+				x.r.Emit(rec.Ev{"op": "race.note", "what": "operation A did not finish within 10 s", "to": o.A.Op, "c": o.A.C})
+			}
+			x.settle()
+			return
+		}
 		w.Gates.Arm(o.Hold)
 		parked := w.Gates.Parked(o.Hold)
 		doneA := make(chan struct{})
